@@ -13,6 +13,12 @@
      Take c          the running handler of c consumes the oldest buffered message and spawns its
                      `process_msg` task (which carries the handler's snapshot).
      Deliver         the oldest in-flight `process_msg` task sends one sample per channel of its snapshot.
+                     [st_out] logs every `send()` that is entered; a send on a channel its consumer closed
+                     raises, and that must not keep the other sends of the fan-out from happening.
+     HandlerFail c   the API client's `<category>_data(c)` raised during a handler (re)start.
+     AddFault c n    `api_client.components()` raised inside `add_metric`: nothing was registered.
+     Restart         the actor's `_run()` was re-entered: the source, its subscriptions, receivers and
+                     handler tasks belong to the actor object and persist (state unchanged).
    The last three fields of the state are history (ghost) variables used by the theorems only. *)
 From Verif Require Export model.Common.
 
@@ -72,7 +78,11 @@ Inductive event :=
 | HandlerStart (c : comp)
 | ApiMsg (c : comp) (m : msg)
 | Take (c : comp)
-| Deliver.
+| Deliver
+(* faults of the environment and what they may NOT change *)
+| HandlerFail (c : comp)            (* the API client raised while the handler (re)started: run_forever retries later *)
+| AddFault (c : comp) (n : name)    (* `add_metric` raised while reading `components()`: the request is dropped *)
+| Restart.                          (* DataSourcingActor._run() re-entered after an unhandled exception *)
 
 Definition fanout (t : task) : list out :=
   map (fun n => (t_comp t, n, sample_of n (t_msg t))) (t_snap t).
@@ -124,7 +134,19 @@ Definition step (cats : comp -> option category) (s : state) (e : event) : optio
                              (st_out s ++ fanout t), fanout t)
       | [] => None
       end
+  | HandlerFail c =>
+      match st_hand s c with
+      | Some HStarting | Some HCrashed =>
+          Some (mkSt (st_subs s) (st_recv s) (upd (st_hand s) c (Some HCrashed))
+                     (st_fly s) (st_acc s) (st_taken s) (st_out s), [])
+      | _ => None
+      end
+  | AddFault _ _ => Some (s, [])
+  | Restart => Some (s, [])
   end.
+
+Definition is_fault (e : event) : bool :=
+  match e with HandlerFail _ => true | _ => false end.
 
 Fixpoint run (cats : comp -> option category) (s : state) (es : list event) : option state :=
   match es with
@@ -165,7 +187,8 @@ Definition obs_ok (s s' : state) (e : event) (o : list out) (ob : observed) : bo
           Bool.eqb created (match st_recv s c with None => true | Some _ => false end)
       | _ => false
       end
-  | HandlerStart c, OCrash => match st_hand s' c with Some HCrashed => true | _ => false end
+  | HandlerStart c, OCrash | HandlerFail c, OCrash => match st_hand s' c with Some HCrashed => true | _ => false end
+  | AddFault _ _, ONone | Restart, ONone => true
   | Take c, OTake m => match rev (st_taken s') with t :: _ => (t_comp t =? c) && msg_eqb (t_msg t) m | [] => false end
   | Deliver, OSent o' => same_set out_eqb o o'
   | _, _ => false
@@ -192,3 +215,11 @@ Definition quiescent (s : state) (cs : list comp) : bool :=
                     | Some HStarting, _ => false
                     | _, _ => true
                     end) cs.
+
+(* a consumer that closed its channel mid-stream has read a prefix of what was sent on it *)
+Fixpoint prefix_eqb (a b : list sample) : bool :=
+  match a, b with
+  | [], _ => true
+  | x :: xs, y :: ys => sample_eqb x y && prefix_eqb xs ys
+  | _ :: _, [] => false
+  end.
